@@ -89,6 +89,98 @@ Definition ctor_wtiny_new (size samples : Z) : list Z :=
   let c := f_to_usize (f_mul sz (f_sub f_one (f_of_bits bits_0_80))) in
   ctor_wtiny_sizes w h c samples bits_0_01.
 
+(** ** the builders: the fields they carry, their setters, [finalize].
+    One record serves the four builders a user can name (TinyLFUBuilder is not exported): [b_a .. b_d] are the sizes / samples, [b_r1] / [b_r2] the ratios (bit
+    patterns).  TwoQueueCacheBuilder: a = size, r1 = recent ratio, r2 = ghost ratio; SegmentedCacheBuilder:
+    a = probationary, b = protected; AdaptiveCacheBuilder: a = size; WTinyLFUCacheBuilder: a = window,
+    b = protected, c = probationary, d = samples, r1 = false positive ratio.  The hashers a builder carries do not influence the result. *)
+Record bld := mkBld { b_a : Z; b_b : Z; b_c : Z; b_d : Z; b_r1 : Z; b_r2 : Z }.
+
+Definition bits_0_25 : Z := 4598175219545276416.   (* 0.25: DEFAULT_2Q_RECENT_RATIO *)
+Definition bits_0_50 : Z := 4602678819172646912.   (* 0.5:  DEFAULT_2Q_GHOST_RATIO *)
+
+Inductive field := FA | FB | FC | FD | FR1 | FR2 | FHasher.
+
+Definition bset (f : field) (x : Z) (b : bld) : bld :=
+  match f with
+  | FA => mkBld x (b_b b) (b_c b) (b_d b) (b_r1 b) (b_r2 b)
+  | FB => mkBld (b_a b) x (b_c b) (b_d b) (b_r1 b) (b_r2 b)
+  | FC => mkBld (b_a b) (b_b b) x (b_d b) (b_r1 b) (b_r2 b)
+  | FD => mkBld (b_a b) (b_b b) (b_c b) x (b_r1 b) (b_r2 b)
+  | FR1 => mkBld (b_a b) (b_b b) (b_c b) (b_d b) x (b_r2 b)
+  | FR2 => mkBld (b_a b) (b_b b) (b_c b) (b_d b) (b_r1 b) x
+  | FHasher => b
+  end.
+
+(** which field a setter of builder [which] writes (setter numbers as the harness numbers them) *)
+Definition setter_field (which setter : Z) : option field :=
+  match which, setter with
+  (* TwoQueueCacheBuilder: set_size, set_recent_ratio, set_ghost_ratio, set_{recent,frequent,ghost}_hasher *)
+  | 1, 1 => Some FA | 1, 2 => Some FR1 | 1, 3 => Some FR2 | 1, 4 | 1, 5 | 1, 6 => Some FHasher
+  (* SegmentedCacheBuilder: set_probationary_size, set_protected_size, two hashers *)
+  | 2, 1 => Some FA | 2, 2 => Some FB | 2, 3 | 2, 4 => Some FHasher
+  (* AdaptiveCacheBuilder: set_size, four hashers *)
+  | 3, 1 => Some FA | 3, 2 | 3, 3 | 3, 4 | 3, 5 => Some FHasher
+  (* WTinyLFUCacheBuilder: set_samples, set_window_cache_size, set_protected_cache_size,
+     set_probationary_cache_size, set_false_positive_ratio, three hashers, set_key_hasher *)
+  | 4, 1 => Some FD | 4, 2 => Some FA | 4, 3 => Some FB | 4, 4 => Some FC | 4, 5 => Some FR1
+  | 4, 6 | 4, 7 | 4, 8 | 4, 9 => Some FHasher
+  | _, _ => None
+  end.
+
+(** [Default::default()] of each builder *)
+Definition bld_default (which : Z) : bld :=
+  if which =? 1 then mkBld 0 0 0 0 bits_0_25 bits_0_50 else mkBld 0 0 0 0 bits_0_01 0.
+
+(** [Builder::new(args)]: the default builder, then the setters the constructor applies *)
+Definition bld_new (which : Z) (args : list Z) : option bld :=
+  match which, args with
+  | 1, [size] => Some (bset FA size (bld_default 1))
+  | 2, [prob; prot] => Some (bset FB prot (bset FA prob (bld_default 2)))
+  | 3, [size] => Some (bset FA size (bld_default 3))
+  | 4, [w; prot; prob; samples] =>
+    Some (bset FC prob (bset FB prot (bset FA w (bset FD samples (bld_default 4)))))
+  | _, _ => None
+  end.
+
+Definition bld_nargs (which : Z) : nat :=
+  if which =? 1 then 1%nat else if which =? 2 then 2%nat else if which =? 3 then 1%nat
+  else if which =? 4 then 4%nat else 0%nat.
+
+Fixpoint bld_run (which : Z) (script : list Z) (b : bld) : option bld :=
+  match script with
+  | [] => Some b
+  | setter :: arg :: rest =>
+    match setter_field which setter with
+    | Some f => bld_run which rest (bset f arg b)
+    | None => None
+    end
+  | _ => None
+  end.
+
+Definition bld_finalize (which : Z) (b : bld) : option (list Z) :=
+  if which =? 1 then Some (ctor_twoq (b_a b) (b_r1 b) (b_r2 b))
+  else if which =? 2 then Some (ctor_slru (b_a b) (b_b b))
+  else if which =? 3 then Some (ctor_arc (b_a b))
+  else if which =? 4 then Some (ctor_wtiny_sizes (b_a b) (b_b b) (b_c b) (b_d b) (b_r1 b))
+  else None.
+
+(** [141; which; mode; init args (mode 1 = new(args), mode 0 = default()); (setter, arg)*]: run the script, finalize *)
+Definition bld_step (op : list Z) : option (list Z) :=
+  match op with
+  | 141 :: which :: mode :: rest =>
+    let n := if mode =? 0 then 0%nat else bld_nargs which in
+    match (if mode =? 0 then Some (bld_default which) else bld_new which (firstn n rest)) with
+    | Some b0 =>
+      match bld_run which (skipn n rest) b0 with
+      | Some b => bld_finalize which b
+      | None => None
+      end
+    | None => None
+    end
+  | _ => None
+  end.
+
 (** the constructor call as an operation: [140; which; args...] *)
 Definition ctor_step (op : list Z) : option (list Z) :=
   match op with
@@ -99,5 +191,12 @@ Definition ctor_step (op : list Z) : option (list Z) :=
   | [140; 6; w; prot; prob; samples] => Some (ctor_wtiny_sizes w prot prob samples bits_0_01)
   | [140; 7; size; samples] => Some (ctor_wtiny_new size samples)
   | [140; 8; size; samples; fp] => Some (ctor_tiny size samples fp)
+  (* TwoQueueCache::new / with_recent_ratio / with_ghost_ratio *)
+  | [140; 9; size] => Some (ctor_twoq size bits_0_25 bits_0_50)
+  | [140; 10; size; rr] => Some (ctor_twoq size rr bits_0_50)
+  | [140; 11; size; gr] => Some (ctor_twoq size bits_0_25 gr)
+  (* RawLRU::with_hasher / with_on_evict_cb / with_on_evict_cb_and_hasher *)
+  | [140; 12; cap] | [140; 13; cap] | [140; 14; cap] => Some (ctor_rawlru cap)
+  | 141 :: _ => bld_step op
   | _ => None
   end.
